@@ -37,10 +37,10 @@ PROPS = {
 TRUSTED_BASE = [
     "Lean 4.33.0 kernel (theorems re-checked by `lake build`; thorough tier also leanchecker)",
     "axioms used by the theorems: subset of {propext, Quot.sound, Classical.choice} (listed per theorem); no sorry/admit/native_decide/bv_decide/own axioms",
-    "fact extractor harness/cmd/extract (go/ast) regenerating CoseModel/Generated/Facts.lean from /repo",
+    "fact extractor harness/cmd/extract (go/ast) regenerating CoseModel/Generated/Facts.lean from /repo (constants, prefixes, context strings, decision tables, panic/write-site inventories, statement lists of the crypto wrapper functions); baselines in CoseProofs/FactsTie.lean and CoseProofs/SignersTie.lean, compared by rfl theorems",
     "correspondence check: Go harness cosedrive (public API of /repo only) vs compiled Lean model cosemodel, same operation lines, canonicalised outputs diffed",
     "hand-written model of fxamacker/cbor v2.5.0, math/big, Go map semantics (validated by the correspondence only)",
-    "crypto primitives are parameters (transparent scheme sig=0x01||keyid||content in both Go and Lean); Go stdlib crypto trusted in the real-algorithm sweeps",
+    "crypto primitives are parameters: message-level theorems under Matches/Unique hypotheses on an abstract Signer/Verifier (transparent scheme sig=0x01||keyid||content in both Go and Lean for the correspondence); the built-in ECDSA/RSA-PSS/Ed25519 signer and verifier objects are modelled as wrappers over an arbitrary primitive (CoseModel/Signers.lean) and Matches is derived from correctness of the primitive; Go stdlib crypto trusted in the real-algorithm sweeps",
 ]
 
 ASSUMPTIONS = [
